@@ -45,4 +45,13 @@ CLAIMED["C10"]["technique"] = T + ": mutation-site coverage path rule (A4-versio
 CLAIMED["C13"]["technique"] = T + ": abstract interpretation of handlers against the command grammar (A7), nilness of typed accessors, payload agreement, may-held lock leak and non-re-entrant acquisition reachability"
 CLAIMED["C19"]["technique"] = T + ": mutation-site coverage path rule (A4-dirty), saver-loop provenance, writer/loader record agreement, create/close/rename ordering"
 
+CLAIMED.update({
+ "C11": {"technique": T + ": dominance / cyclic-path rules on the block-wake protocol, ordering rule in the waking release wrapper, release-wrapper rule for list inserters",
+         "text": L("register→retry→wait, re-register after a failed retry, disposal on all exits, wake before unlock through a buffered channel, every inserter releases through the waking wrapper"), "note": NOTE},
+ "C12": {"technique": T + ": select-arm provenance, capture/release must-pass rule, multi-guard dominance, call-graph reachability from close paths",
+         "text": L("the wait has exactly the mailbox/timer/wake arms, capture is always released, no waiting under EXEC, unblock reply depends on the unblock result, closing reaches the unblock"), "note": NOTE},
+ "C20": {"technique": T + ": call-graph reachability from the lifecycle API, process-exit reachability, run-time writes to package-level state, dead retry loop",
+         "text": L("termination reaches the connections, no process exit on environment errors, no per-process shared registries, live retry loop — all four currently known findings; the check reports any new instance"), "note": NOTE},
+})
+
 PENDING = {}
